@@ -1,10 +1,7 @@
 (* Some fuel suffices, part 2: the commit side in any state (completion of shutdown(), a commit waiter firing, delivery of a
    commit result) and the application's stop() as an event.  The fuel of the interpreter is the nesting depth of re-entrant
    calls; here it is bounded by a linear function of the number of commit waiters (which grows by at most one per commit()).
-   NOT done: the message loop (KProcLoop / KFetchResp / KFireProc).  Its measure is designed (4 * (blocks to hand over +
-   messages of the parked reply) + waiters + constant, waiters growing by <= 3 per block; needs 0 <= auto_commit_every_n,
-   otherwise the model's loop takes empty blocks for ever), the leaf facts it needs are below (LF), the bodies are not
-   proved. *)
+   The message loop is in ConsumerFuelEnoughLoop.v, whole runs in ConsumerFuelEnoughRun.v. *)
 From Coq Require Import Lia.
 From AV Require Import Base.Util Model.Consumer Proofs.ConsumerBase Proofs.ConsumerFrame Proofs.ConsumerStop Proofs.ConsumerShut
   Proofs.ConsumerShutFlags Proofs.ConsumerNotStarted Proofs.ConsumerFuelEnoughStop.
